@@ -51,7 +51,7 @@ func genEPParams(t *rapid.T, maxLogN int, fast32 int) (spec h.RLWESpec, levelQ, 
 	var nQ, nP int
 	var qsz []int
 	switch {
-	case shape < fast32: // single modulus below 2^29 without P: 32-bit fast path
+	case shape >= 10-fast32: // single modulus below 2^29 without P: 32-bit fast path
 		nQ, nP = 1, 0
 		qsz = []int{rapid.IntRange(minb+4, 28).Draw(t, "q32bits")}
 		if rapid.IntRange(0, 3).Draw(t, "q32top") == 0 {
@@ -383,6 +383,6 @@ func wClass(w int) string {
 	}
 }
 
-var propEP = h.NewProp("TestPropExternalProduct", h.Budget{Quick: 700, Thorough: 12000}, genEP, runEP)
+var propEP = h.NewProp("TestPropExternalProduct", h.Budget{Quick: 1500, Thorough: 12000}, genEP, runEP)
 
 func TestPropExternalProduct(t *testing.T) { propEP.Check(t) }
